@@ -216,6 +216,9 @@ func (cl *Cluster) Concrete(c string, i int, r AbsReq) []byte {
 		return respx.Cmd("AUTH", cl.cfg.Password+"x")
 	case "unknown":
 		return respx.Cmd("FLUSHALL")
+	case "bad":
+		// bytes no Redis server accepts as a request (three shapes, by position)
+		return [][]byte{[]byte("$$$\r\n"), []byte("*2\r\n$3\r\nGET\r\n$-5\r\n"), []byte("*1\r\n$3\r\nGET extra\r\n")}[i%3]
 	case "arity":
 		return respx.Cmd("GET")
 	case "cmd":
